@@ -837,6 +837,21 @@ macro_rules! rel_vec {
                 $o.emit(json!({"k": "rel", "op": "reject_from", "f": $fm, "ty": ty, "a": wv(&a), "b": wv(&b), "got": wv(&a.reject_from(b))}));
             }
         }
+        // ---- clamp_length family: bounds around, below and above the length
+        {
+            let a = ro($r);
+            let l = a.length();
+            if l > 0.1 {
+                for (lo, hi) in [(l * 0.5, l * 2.0), (l * 1.5, l * 3.0), (l * 0.1, l * 0.6), (l, l), (0.0 as $S, l * 0.25)] {
+                    $o.emit(json!({"k": "rel", "op": "clamp_len", "f": $fm, "ty": ty, "sp": "clamp_length", "a": wv(&a), "min": w(lo), "max": w(hi), "got": wv(&a.clamp_length(lo, hi))}));
+                }
+                let big: $S = (2.0 as $S).powi(60);
+                $o.emit(json!({"k": "rel", "op": "clamp_len", "f": $fm, "ty": ty, "sp": "clamp_length_max", "a": wv(&a), "min": w(0.0), "max": w(l * 0.5), "got": wv(&a.clamp_length_max(l * 0.5))}));
+                $o.emit(json!({"k": "rel", "op": "clamp_len", "f": $fm, "ty": ty, "sp": "clamp_length_max (inside)", "a": wv(&a), "min": w(0.0), "max": w(l * 2.0), "got": wv(&a.clamp_length_max(l * 2.0))}));
+                $o.emit(json!({"k": "rel", "op": "clamp_len", "f": $fm, "ty": ty, "sp": "clamp_length_min", "a": wv(&a), "min": w(l * 2.0), "max": w(big), "got": wv(&a.clamp_length_min(l * 2.0))}));
+                $o.emit(json!({"k": "rel", "op": "clamp_len", "f": $fm, "ty": ty, "sp": "clamp_length_min (inside)", "a": wv(&a), "min": w(l * 0.5), "max": w(big), "got": wv(&a.clamp_length_min(l * 0.5))}));
+            }
+        }
         // ---- move_towards
         let a = ro($r);
         let dir = ro($r);
@@ -926,6 +941,17 @@ macro_rules! rel_vec {
             }
         }
         rel_vec!(@vslerp $o, $r, $V, $S, $fm, $w, $wv, $ro, $ty);
+        // ---- orthogonal / orthonormal companions (z = -1 and z ~ 0 included) and rotation arcs between unit vectors
+        for k in 0..3 {
+            let raw = match k { 0 => $ro($r), 1 => $V::new(1e-4, 2e-4, -1.0), _ => $V::new(0.6, 0.8, (unit_f64($r) * 2e-3 - 1e-3) as $S) };
+            if raw.length() > 0.1 {
+                let u = raw.normalize();
+                $o.emit(json!({"k": "rel", "op": "ortho", "f": $fm, "ty": $ty, "sp": "any_orthogonal_vector", "unit": 0, "a": $wv(&raw), "got": [$wv(&raw.any_orthogonal_vector())]}));
+                $o.emit(json!({"k": "rel", "op": "ortho", "f": $fm, "ty": $ty, "sp": "any_orthonormal_vector", "unit": 1, "a": $wv(&u), "got": [$wv(&u.any_orthonormal_vector())]}));
+                let (p1, p2) = u.any_orthonormal_pair();
+                $o.emit(json!({"k": "rel", "op": "ortho", "f": $fm, "ty": $ty, "sp": "any_orthonormal_pair", "unit": 1, "a": $wv(&u), "got": [$wv(&p1), $wv(&p2)]}));
+            }
+        }
     }};
 }
 macro_rules! rel_quat {
@@ -950,6 +976,18 @@ macro_rules! rel_quat {
             }
             let near = q0 * (1.0 + ((unit_f64($r) - 0.5) * 2e-4) as $S);
             $o.emit(json!({"k": "rel", "op": "normalize", "f": $fm, "ty": ty, "sp": "normalize (nearly unit)", "v": wq(&near), "got": wq(&near.normalize())}));
+            // rotation arcs between unit vectors: general, nearly parallel, nearly opposite, exactly opposite
+            {
+                let ua = axis;
+                let ub0 = { let l: Vec<$S> = (0..3).map(|_| (unit_f64($r) * 2.0 - 1.0) as $S).collect(); $V3::from_slice(&l).normalize() };
+                for ub in [ub0, (ua + ub0 * 1e-3).normalize(), (-ua + ub0 * 1e-3).normalize(), -ua, ua] {
+                    if ub.is_finite() {
+                        let wv3 = |v: &$V3| -> Value { Value::Array(v.to_array().iter().map(|x| w(*x)).collect()) };
+                        $o.emit(json!({"k": "rel", "op": "arc", "f": $fm, "ty": ty, "sp": "from_rotation_arc", "colinear": 0, "a": wv3(&ua), "b": wv3(&ub), "q": wq(&$Q::from_rotation_arc(ua, ub))}));
+                        $o.emit(json!({"k": "rel", "op": "arc", "f": $fm, "ty": ty, "sp": "from_rotation_arc_colinear", "colinear": 1, "a": wv3(&ua), "b": wv3(&ub), "q": wq(&$Q::from_rotation_arc_colinear(ua, ub))}));
+                    }
+                }
+            }
             // the angle between a rotation and itself / its negative is zero; rotating towards beyond the remaining angle reaches the target
             $o.emit(json!({"k": "rel", "op": "angle_parallel", "f": $fm, "ty": ty, "quat": 1, "a": wq(&q0), "b": wq(&q0), "got": w(q0.angle_between(q0))}));
             $o.emit(json!({"k": "rel", "op": "angle_parallel", "f": $fm, "ty": ty, "quat": 1, "sp": "q, -q", "a": wq(&q0), "b": wq(&q0), "got": w(q0.angle_between(-q0))}));
